@@ -54,6 +54,12 @@ register(PropertySpec(
              "a symbolic method call applies the method with all the positional and keyword arguments it was built with"),
         Rule("COVERAGE-SUBSUMPTION", _lazy("cacheidx", "rule_coverage_subsumption"), 3,
              "(shared with C20) result caches are on by default: a coverage test that over-approximates loses rows on re-evaluation of any query"),
+        Rule("CLEAR-COMPLETE", _lazy("cacheidx", "rule_clear_complete"), 4,
+             "(shared with C20) clearing an index (after an abandoned evaluation; a class's registry store) empties every store and withdraws the coverage marks"),
+        Rule("REENTRANT-FLAG", _lazy("values", "rule_reentrant_flag"), 1,
+             "(shared with C19) one attribute expression used as operand and as condition in the same query"),
+        Rule("DECL-FILTER", _lazy("predform", "rule_decl_filter"), 5,
+             "(shared with C13) the type filter of a supplied domain is lazy (an eagerly built empty list counts as no domain: the registry) and uses the class being constructed"),
     ],
     explanation="Decides the clause 'the condition vocabulary denotes the ordinary Python operator': the node each "
                 "public comparison/membership entry constructs (arguments mapped to dataclass fields through the MRO "
@@ -212,6 +218,8 @@ register(PropertySpec(
              "memoised methods that depend on the position of a node in the tree are dropped with the per-evaluation state"),
         Rule("RESET-REACHES-EVALUATED", _lazy("history", "rule_reset_reaches_evaluated"), 6,
              "every sub-expression a node evaluates is linked below it in the node graph the reset and the invalidation walk"),
+        Rule("CHECK-IS-PURE", _lazy("cacheidx", "rule_check_is_pure"), 2,
+             "(shared with C20) asking whether a binding is covered does not mark it covered (a sub-query evaluated alone would hide its false rows from a later enclosing query)"),
     ],
     explanation="History independence is absence of residue on the shared expression nodes. Decided: where residue is "
                 "written (discovered mechanically from dataclass fields and mutation sites reachable from evaluation "
@@ -256,6 +264,10 @@ register(PropertySpec(
              "(shared with C04) a domain that lists the solution twice gives one solution on the first evaluation as on later ones"),
         Rule("CACHE-FLAG-CONSISTENT", _lazy("cacheidx", "rule_cache_flag_consistent"), 5,
              "(shared with C05) re-evaluating the() replays cached rows with their own truth flag"),
+        Rule("FORALL-PER-VALUE", _lazy("forall", "rule_forall_per_value"), 1,
+             "(shared with C10) a for_all under the() evaluates its condition under the incoming binding"),
+        Rule("NO-DOMAIN-MUTATION", _lazy("history", "rule_no_domain_mutation"), 1,
+             "(shared with C04) a From object shared by two variables is not rewritten by the first"),
     ],
     explanation="The three outcomes of `the` are decided by a typestate interpretation of its evaluator over the finite "
                 "state space (result None/solution, solutions consumed 0/1/>=2, _is_false_), exception classes resolved "
@@ -293,6 +305,8 @@ register(PropertySpec(
              "the collection / scalar classifier shared by flatten and concatenate excludes strings by isinstance (subclasses of str are scalars)"),
         Rule("VOCAB-DENOTATION", _lazy("opden", "rule_vocab_denotation"), 4,
              "for_all / flatten / concatenate / not_ return, on every path, the node of their name built from their arguments themselves"),
+        Rule("DECL-FILTER", _lazy("predform", "rule_decl_filter"), 5,
+             "(shared with C13) the type filter of a supplied domain is lazy (an eagerly built empty list counts as no domain: the registry) and uses the class being constructed"),
     ],
     explanation="Decides: exactly-one-row by counting yields over all CFG paths; and interface agreement among the "
                 "implementations of the evaluation protocol (a concatenate used where the protocol passes "
@@ -502,6 +516,12 @@ register(PropertySpec(
              "rule inference constructs through the class call (registering arm); nothing else allocates user objects"),
         Rule("MODE-PAIRING", _lazy("modes", "rule_mode_pairing"), 6,
              "(shared with C08) which arm of the constructor runs is decided by the mode: it must be restored on every exit of a block"),
+        Rule("CLEAR-COMPLETE", _lazy("cacheidx", "rule_clear_complete"), 4,
+             "(shared with C20) clearing an index (after an abandoned evaluation; a class's registry store) empties every store and withdraws the coverage marks"),
+        Rule("DECL-FILTER", _lazy("predform", "rule_decl_filter"), 5,
+             "(shared with C13) the type filter of a supplied domain is lazy (an eagerly built empty list counts as no domain: the registry) and uses the class being constructed"),
+        Rule("NO-YIELD-UNDER-MODE", _lazy("modes", "rule_no_yield_under_mode"), 1,
+             "(shared with C08) the mode override of a result iterator is not held across a yield: between two results the caller's constructor calls take the caller's arm"),
     ],
     explanation="Registry discipline is ownership: a single writer, on a must-pass-through path of the concrete "
                 "constructor arm, keyed by the runtime class; the symbolic arm provably (call-graph closure) cannot "
@@ -539,6 +559,8 @@ register(PropertySpec(
              "(shared with C07) for_all leaves the universal domain at the value that falsifies the statement: that value must already be memoised"),
         Rule("VOCAB-DENOTATION", _lazy("opden", "rule_vocab_denotation"), 4,
              "for_all / flatten / concatenate / not_ return, on every path, the node of their name built from their arguments themselves"),
+        Rule("CLEAR-COMPLETE", _lazy("cacheidx", "rule_clear_complete"), 4,
+             "(shared with C20) clearing an index (after an abandoned evaluation; a class's registry store) empties every store and withdraws the coverage marks"),
     ],
     explanation="Universal quantification is implemented as a running intersection; that the accumulated set can only "
                 "shrink, is seeded once and is emptied by a value with no satisfying binding is a typestate property of "
@@ -703,6 +725,8 @@ register(PropertySpec(
              "(shared with C04) the rows of an evaluation that follows an abandoned one are the rows of the query: the per-evaluation duplicate-suppression state is reset on every exit of evaluate()"),
         Rule("TRAVERSAL-TOTAL", _lazy("history", "rule_traversal_total"), 2,
              "(shared with C04) that reset reaches every node of the tree"),
+        Rule("CLEAR-COMPLETE", _lazy("cacheidx", "rule_clear_complete"), 4,
+             "(shared with C20) clearing an index (after an abandoned evaluation; a class's registry store) empties every store and withdraws the coverage marks"),
     ],
     explanation="Laziness is preserved iff nothing on the path from the user's domain to the user's next() materialises a "
                 "stream. That is a may-materialise taint analysis over every function that handles evaluation streams or "
@@ -786,6 +810,10 @@ register(PropertySpec(
              "(shared with C02) unrelated selected variables are combined by an all-combinations combinator"),
         Rule("DEDUP-TRUTH-UP", _lazy("binding", "rule_dedup_truth_up"), 1,
              "a conjunction reports its own truth to its parent as unknown when all that is known is that one operand is true"),
+        Rule("DEDUP-KEY", _lazy("binding", "rule_dedup_key"), 3,
+             "(shared with C02) swapping the operands of and_: the left rows are keyed by what the right side tests"),
+        Rule("DEDUP-PARENT", _lazy("binding", "rule_dedup_parent"), 5,
+             "(shared with C02)"),
     ],
     explanation="Two of the six listed rewrites are decided: mirrored comparisons and contains/in_, by the OPDEN "
                 "denotation rule (C01). Commutativity/associativity of and/or, declaration/selection order and domain "
@@ -802,6 +830,56 @@ def _attach_sensitivity():
     for pid, fn in variants.REGISTRY.items():
         if pid in SPECS:
             SPECS[pid].sensitivity = fn
+
+
+
+
+register(PropertySpec(
+    id="C15",
+    title="a sub-query used inside a query means the same as its conditions inlined",
+    rules=[
+        Rule("QUANT-TRUTH", _lazy("subquery", "rule_quant_truth"), 5,
+             "abstract interpretation of An._evaluate__ for every (descriptor false, yield_when_false): a row is handed on iff the "
+             "descriptor's row is true or false rows were requested, with the descriptor's truth as the quantifier's own; the request "
+             "for false rows is passed on to the descriptor"),
+        Rule("QUANT-REEXPORT", _lazy("subquery", "rule_quant_reexport"), 4,
+             "every row a quantifier hands on binds the quantifier's id to the row's value of its selected variable, depending only "
+             "on there being a single selected variable"),
+        Rule("QUANT-CONTRIBUTES", _lazy("subquery", "rule_quant_contributes"), 3,
+             "a quantifier passed where a variable is selected is replaced by its selected variable and joins the conjunction of "
+             "conditions; operators on a quantifier delegate to the selected variable of its descriptor"),
+        Rule("HOOK-SELF", _lazy("subquery", "rule_hook_self"), 3,
+             "attribute access, indexing and calls on an expression build their node on that expression (a quantifier stays in the tree)"),
+        Rule("VARS-COMPLETE", _lazy("subquery", "rule_vars_complete"), 8,
+             "every node reports the variables of every sub-expression it evaluates (keys of the result caches and duplicate "
+             "suppression of the operators above a sub-query)"),
+        Rule("SLOT-ALIGN", _lazy("predform", "rule_slot_align"), 2,
+             "(shared with C13) a sub-query given positionally after From(...) constrains the field in that position"),
+        Rule("BIND-THREAD", _lazy("binding", "rule_bind_thread"), 30,
+             "(shared with C02) quantifier and descriptor evaluate what is below them under the incoming binding"),
+        Rule("BIND-KEEP", _lazy("binding", "rule_bind_keep"), 12,
+             "(shared with C02) and hand the whole row of the sub-query on"),
+        Rule("DEDUP-PARENT", _lazy("binding", "rule_dedup_parent"), 5,
+             "(shared with C02) the duplicate-suppression key inside a sub-query contains what the enclosing query requires"),
+        Rule("CACHED-POSITION-RESET", _lazy("history", "rule_cached_position_reset"), 1,
+             "(shared with C04) those keys are memoised per node and dropped with the per-evaluation state: a sub-query evaluated on "
+             "its own and then nested is keyed for the tree it sits in"),
+        Rule("VALUE-TRUTH", _lazy("values", "rule_value_truth"), 10,
+             "(shared with C19) a sub-query used as an operand or constructor argument is evaluated as a value"),
+        Rule("LOGIC-TRUTH", _lazy("logic", "rule_logic_truth"), 12,
+             "(shared with C01) & and | over sub-queries combine the truth flags the quantifiers report"),
+    ],
+    explanation="Decides the structural clauses of the three mechanisms the property is anchored in: (1) a quantifier node in "
+                "the middle of a tree is transparent for truth (same truth table as its conditions, request for false rows passed "
+                "on) and re-exports its selected variable under its own id; (2) a quantifier passed as a selected variable contributes "
+                "its conditions; (3) operators on a quantifier stay above the sub-query. Plus the engine rules that make a nested "
+                "tree behave like the flat one: complete variable sets, binding discipline, duplicate keys that follow the tree the "
+                "node currently sits in. NOT decided: equality of the result sets of the composed and the inlined tree in general "
+                "(duplicate suppression and caches act on runtime bindings); an operand sub-query that yields no row for a binding "
+                "hides the other side of an enclosing | (same construct as the C18 known finding).",
+    assumptions=[],
+    design_ref="DESIGN.md §2 C15",
+))
 
 
 _attach_sensitivity()
